@@ -348,6 +348,31 @@ def eq(res):
         if f1 != f2 or not (back == obj) or not (obj == cls(5)):
             res.violation(f"C04/reassigned-number/{kind}", f"{kind}(1) with .{attr} set to 5 prints as {obj} and writes {f1.as_integer:#x}; "
                           f"{kind}(5) writes {f2.as_integer:#x}; read back == object: {back == obj}", {"kind": kind})
+    # copies made by the standard library are the same address: equal, same class, same bits written
+    import copy
+    import pickle
+    from models import addr_ref as R3
+    for obj in R3.all_gear(address) + R3.all_device(address) + R3.all_instances(address, reserved=False):
+        w = 16 if type(obj).__name__.startswith("Gear") else 24
+        for how, fn in (("copy", copy.copy), ("deepcopy", copy.deepcopy), ("pickle", lambda o: pickle.loads(pickle.dumps(o)))):
+            res.evaluations += 1
+            try:
+                twin = fn(obj)
+            except Exception as e:
+                res.observe(f"{how}-raises-{type(e).__name__}", type(obj).__name__)
+                continue
+            res.hit("clones_checked")
+            fa, fb = frame.ForwardFrame(w, 0x010000 if w == 24 else 0), frame.ForwardFrame(w, 0x010000 if w == 24 else 0)
+            try:
+                obj.add_to_frame(fa)
+                twin.add_to_frame(fb)
+                same = type(twin) is type(obj) and twin == obj and not (twin != obj) and fa == fb and R3.describe(twin) == R3.describe(obj)
+            except Exception as e:
+                same = False
+            if not same:
+                res.violation(f"C04/clone-differs/{how}/{type(obj).__name__}", f"{how} of {obj} is {twin} (== gives {twin == obj}); "
+                              f"they write {fa.as_integer:#x} / {fb.as_integer:#x}", {"kind": type(obj).__name__, "how": how})
+                break
     # ... and an object that came out of a frame belongs to its reader: changing it (or an instance object read from a frame)
     # does not change what the next frame with the same bits reads as
     from models import addr_ref as R2
